@@ -24,7 +24,8 @@ JOBS = {'quick': 4, 'thorough': 16}
 REQUIRED_MONITORS = ('interleaved_access', 'instances_vs_truth', 'access_consistency', 'negative_topology')
 REQUIRED_CLASSES = ('enumerated', 'random-long', 'species:multi-residue', 'species:repeated-residue',
                     'species:same-name-other-size', 'solvent-interleaved', 'order:permuted', 'api:files', 'api:tops',
-                    'negative:absent-species', 'negative:pattern-at-end', 'negative:refused-then-system-used-again', 'api:tops+refused', 'adjacent-instances-of-a-merging-species')
+                    'negative:absent-species', 'negative:pattern-at-end', 'negative:refused-then-system-used-again', 'api:tops+refused', 'adjacent-instances-of-a-merging-species',
+                    'api:open-handles', 'handle:shared-by-two-systems', 'handle:caller-reads-between-accesses')
 RULE = ('enumerated part: all sequences of length <= Lmax over {S1,S2,S3,S4,W} x all permutations of the loading order of '
         'the species present (Lmax = 6 thorough, 4 quick with <= 6 orders); random part: systems of 50..2000 molecules in '
         'block / alternating / random order. Non-trivial: at least 2 loaded species present or a multi-residue species '
@@ -131,6 +132,18 @@ def build(ctx, path, order, api, seq=None):
     from gaddlemaps.components import System
     if api == 'files':
         return System(path, *[_tmp['itp'][k] for k in order])
+    if api == 'open-handles':
+        # coordinates and topologies handed over as open text files; the caller keeps the coordinate handle and goes on
+        # using it, also for a second System (check_system, interleaved access)
+        fh = open(path)
+        tops = [open(_tmp['itp'][k]) for k in order]
+        try:
+            sysm = System(fh, *tops)
+        finally:
+            for t in tops:
+                t.close()
+        sysm.__dict__['_gmv_handle'] = (fh, [_tmp['itp'][k] for k in order])
+        return sysm
     s = System(path)
     if api != 'tops+refused':
         for k in order:
@@ -250,10 +263,34 @@ def check_system(ctx, s, instances, species, w, deep):
         ri = np.random.default_rng(n + 11)
         its = [[iter(s), 0], [iter(s), 0]]
         hist = []
-        for _ in range(min(4 * n + 6, 60)):
-            op = int(ri.integers(0, 5))
+        fh, itps = s.__dict__.get('_gmv_handle', (None, None))
+        s2 = None
+        if fh is not None:
+            # the caller's own handle: a second System is made on it (topologies in the opposite order) and both are used
+            # in turn, and the caller reads from the handle itself between two accesses
+            from gaddlemaps.components import System
             try:
-                if op <= 1 or op == 4:
+                fh.seek(0)
+                s2 = System(fh, *itps[::-1])
+                ctx.hit('handle:shared-by-two-systems')
+            except Exception as exc:  # noqa
+                ctx.violation(f'system-construction-raises:{type(exc).__name__}', f'second System on the same open handle: {str(exc)[:150]}', witness=w)
+        for _ in range(min(4 * n + 6, 60)):
+            op = int(ri.integers(0, 7 if fh is not None else 5))
+            try:
+                if op == 5:
+                    fh.seek(0)
+                    fh.readline()
+                    hist.append(('caller-reads-title-through-its-handle',))
+                    ctx.hit('handle:caller-reads-between-accesses')
+                    bad = False
+                elif op == 6:
+                    if s2 is None:
+                        continue
+                    k = int(ri.integers(-n, n))
+                    hist.append(('index-in-second-system', k))
+                    bad = mol_key(s2[k]) != keys[k]
+                elif op <= 1 or op == 4:
                     it = its[op % 2]
                     if it[1] >= n:
                         its[op % 2] = it = [iter(s), 0]
@@ -338,7 +375,7 @@ def run_enum(ctx, case):
         seq = [KEYS[d] for d in digits]
         if all(k == 'W' for k in seq):
             continue
-        run_sequence(ctx, seq, orders, ('enum', L, idx), ['tops', 'tops+refused', 'files', 'tops+refused'], deep_every=3)
+        run_sequence(ctx, seq, orders, ('enum', L, idx), ['open-handles', 'tops', 'tops+refused', 'files', 'tops+refused'], deep_every=3)
         ctx.hit('enumerated')
         if idx == 37 and L == 3:
             ctx.sample({'kind': 'enumerated', 'sequence': seq, 'orders': [list(o) for o in orders([k for k in KEYS[:4] if k in seq])][:4]})
@@ -369,7 +406,7 @@ def run_enum2(ctx, case):
                 r = np.random.default_rng([ctx.seed, L, idx])
                 perms = [perms[int(i)] for i in r.choice(len(perms), 6, replace=False)]
             return perms
-        run_sequence(ctx, seq, orders, ('enum2', L, idx), ['tops', 'files', 'tops+refused'], deep_every=2, loadable=KEYS2[:4])
+        run_sequence(ctx, seq, orders, ('enum2', L, idx), ['tops', 'files', 'open-handles', 'tops+refused'], deep_every=2, loadable=KEYS2[:4])
         ctx.hit('enumerated:merging-layouts')
         if any(a == b and a in ('S5', 'S6', 'S7') for a, b in zip(seq, seq[1:])):
             ctx.hit('adjacent-instances-of-a-merging-species')
@@ -395,7 +432,7 @@ def run_rand(ctx, case):
         perms = list(itertools.permutations(present))
         r = np.random.default_rng([ctx.seed, case['i']])
         return [perms[int(i)] for i in r.choice(len(perms), min(len(perms), 3), replace=False)]
-    run_sequence(ctx, seq, orders, ('rand', case['i']), ['files', 'tops', 'tops+refused'], mode='unique-grid', loadable=keys[:4])
+    run_sequence(ctx, seq, orders, ('rand', case['i']), ['open-handles', 'files', 'tops', 'tops+refused'], mode='unique-grid', loadable=keys[:4])
     ctx.hit('random-long')
     if case['i'] == 0:
         ctx.sample({'kind': 'random system', 'molecules': n, 'order_kind': kind, 'sequence_head': seq[:20]})
